@@ -18,7 +18,7 @@ ASSUMPTIONS = [
     "generations are numbered by creation order, member ids are what the coordinator answers; the coordinator may answer anything (success, RebalanceInProgress, other Kafka error, dropped connection) at every call",
     "the leave-on-close statement counts a LeaveGroup as attempted when the coordinator could not be reached for it (dropped connection / FindCoordinator error on the leave path)",
     "'the current member id' is the memberID variable of ConsumerGroup.run: set by every successful JoinGroup, kept across generations and RebalanceInProgress results, cleared after the leave attempt following any other error, "
-    "and cleared WITHOUT LeaveGroup when a JoinGroup request itself fails (joinGroup returns \"\" on error); the harness tracks the same notion from the answers the coordinator gave",
+    "kept across a failed JoinGroup request too (joinGroup returns the id it was given); it is never cleared except right after a leave attempt for it (C15_member_id_cleared_only_after_leave); the harness tracks the same notion from the answers the coordinator gave",
 ]
 
 
@@ -74,6 +74,7 @@ def e2e_violation(c):
         return "watchdog: " + g[:200]
     for tok, what in (("NOTCANCELLED", "a started function returned / heartbeat failed and gen.done was not closed by its exit handler"),
                       ("EARLYc", "re-join attempt before JoinGroupBackoff elapsed after a failure other than RebalanceInProgress"),
+                      ("DROPPEDID", "a JoinGroup request arrived without the member id the coordinator had given, and no LeaveGroup was attempted for that id"),
                       ("BADGEN", "SyncGroup carried a generation id other than the one JoinGroup answered"),
                       ("g?", "Next returned a generation the coordinator never created")):
         if tok in g.split(" ") or (tok == "g?" and "g? " in g + " "):
@@ -157,11 +158,14 @@ def correspondence(ctx):
             failures.append(dict(layer="property", what=f"{c['op']}: {v}", detail=c["line"][:1500] + " -> " + c["go"][:500],
                                  input=dict(case=c["line"], go=c["go"], feats=c["feats"])))
         feats = c["feats"].split(",")
+        if "dropped-id-without-leave" in feats:
+            failures.append(dict(layer="property", what="soak: a JoinGroup request arrived without the member id the coordinator had given, and no LeaveGroup was attempted for that id",
+                                 detail=c["line"][:1500], input=dict(case=c["line"], go=c["go"], feats=c["feats"])))
         if "leavefull=0" in c["go"] or "close-without-leave" in feats or (c["op"] == "wire" and "leave=0" in c["go"]):
             noleave.append(c)
     # leave on close, judged on what the coordinator saw (one failure, smallest witness first)
     if noleave:
-        noleave.sort(key=lambda c: (c["op"] != "e2e-f5", c["op"] != "wire", len(c["line"])))
+        noleave.sort(key=lambda c: (not c["op"].startswith("e2e-"), c["op"] != "wire", len(c["line"])))
         w = noleave[0]
         failures.append(dict(
             layer="property", key=None,
@@ -179,7 +183,7 @@ def correspondence(ctx):
                      "e2e = random walks of the real ConsumerGroup driven label by label against a gated scripted coordinator (0-2 partition watchers, short or long back-off; answers ok / RebalanceInProgress / "
                      "other Kafka error / dropped connection at connect, FindCoordinator, JoinGroup (+leader readPartitions, unknown balancer, bad metadata), SyncGroup (+undecodable assignment), OffsetFetch, Heartbeat, "
                      "LeaveGroup, watcher readPartitions; Next / Next-cancel / Close / Start on live and ended generations / function exit interleaved), the executed label sequence replayed by the extracted model and "
-                     "journal, Next results, Start accounting and final Generation fields compared; soak = free-running consumers, timeline judged by extracted monitors; e2e-f5 + wire = the former F5 scenario (join, SyncGroup -> RebalanceInProgress, no Next, Close) as regression on the real code, interface seam and net.Pipe wire level; "
+                     "journal, Next results, Start accounting and final Generation fields compared; soak = free-running consumers, timeline judged by extracted monitors; e2e-joinerr = generation ends, re-join lost, LeaveGroup for the kept id must follow (regression); e2e-f5 + wire = the former F5 scenario (join, SyncGroup -> RebalanceInProgress, no Next, Close) as regression on the real code, interface seam and net.Pipe wire level; "
                      "a case is non-trivial when its feature set is not just {accounted start, close without waiting}; distinct by hash of op+args",
                 samples=[c["line"][:300] + " | " + c["go"][:160] for c in cases[:3] + cases[mid:mid + 3] + cases[-2:]],
                 extra=dict(cases_by_op=byop, close_after_rebalance_in_progress_offer=sum(1 for c in cases if "offer-abort-rb" in c["feats"].split(","))),
